@@ -230,6 +230,7 @@ theorem addTarget_inv {ms : Option Nat} {c : ChanState} {qs : List Nat} (hi : Ch
       intro c1 hi1
       apply lift_good hi1
       intro c' h
+      unfold addTargetTail at h
       cases hl : c1.last with
       | error e => simp [hl] at h
       | ok last =>
